@@ -263,3 +263,23 @@ Proof. exact wand_union_needs_max_score_bound_refuted. Qed.
 
 Print Assumptions C06_wand_union_sound.
 Print Assumptions C06_wand_union_terminates.
+
+(* ================================================================ fields indexed without frequencies (F61) *)
+From TV Require Import Rank.WandNoFreq.
+
+(* every no-frequency posting list with a positive score inside a full block breaks the bounds contract *)
+Theorem C06_nofreq_not_upper_bounds : forall sc b r d x,
+  sc_blocks sc = b :: r -> b_max b = 0%Z -> In (d, x) (sc_post sc) -> (d <= b_last b)%N -> (0 < x)%Z ->
+  ~ upper_bounds sc.
+Proof. exact nofreq_not_upper_bounds. Qed.
+
+(* ... and the single-scorer routine, run on such a list (blocks of 2 postings for the witness), skips every
+   full block once the collector is full: top-1 is document 1 (score 3) although document 6 scores 5.
+   This is what TermWeight::for_each_pruning does on the implementation (finding F61). *)
+Definition nf_witness : scorer := nofreq_scorer 2 [(1%N, 3%Z); (2%N, 3%Z); (5%N, 3%Z); (6%N, 5%Z); (9%N, 3%Z)] 5%Z.
+Theorem C06_nofreq_blockmax_refuted :
+  block_wand_single_scorer top1_state (top1_thr (-1)) top1_step 40 nf_witness None = Some (Some (1%N, 3%Z)) /\
+  exhaustive top1_state (top1_thr (-1)) top1_step (sc_post nf_witness) None = Some (6%N, 5%Z) /\
+  F61_class true [(false, 384%N)] = true /\ F61_class true [(false, 127%N)] = false /\
+  F61_class false [(false, 384%N); (true, 500%N)] = false /\ F61_class true [(true, 384%N)] = false.
+Proof. vm_compute. repeat split; reflexivity. Qed.
